@@ -1179,6 +1179,7 @@ func (fi *funcInfo) factsAt(b *ssa.BasicBlock, at ssa.Instruction) []Lin {
 			}
 		}
 	}
+	facts = append(facts, fi.tableFacts(b)...) // look-ups in read-only tables under key == constant (ext_x3.go)
 	return facts
 }
 
